@@ -683,6 +683,7 @@ func (c *Client) Dial(ctx context.Context) error {
 		conn.Close()
 		return err
 	}
+	verifPoint("cl.dial.opened")
 	c.setSecureChannel(sc)
 
 	return nil
